@@ -194,6 +194,19 @@ func (r *feedRun) apply(o fop) {
 			r.model.seq = append([]int{id}, r.model.seq...)
 			r.model.lo--
 		}
+	case "create-list-with-nil":
+		// a list whose second element is the nil item: it occupies a position like any other
+		ts, ids := r.fresh(1)
+		r.real = feed.CreateAndAppend([]pub.Tangible{ts[0], nil})
+		r.model = feedModel{lo: 0, hi: 3, seq: []int{ids[0], 0}, cur: 1}
+	case "append-nil":
+		r.real.Append([]pub.Tangible{nil})
+		r.model.seq = append(r.model.seq, 0)
+		r.model.hi++
+	case "prepend-nil":
+		r.real.Prepend([]pub.Tangible{nil})
+		r.model.seq = append([]int{0}, r.model.seq...)
+		r.model.lo--
 	case "up":
 		r.real.MoveUp()
 		if r.model.contains(-1) {
@@ -238,7 +251,11 @@ func (r *feedRun) compare() string {
 			return fmt.Sprintf("Get(%d) panicked=%v but model Contains=%v", off, panicked, m.contains(off))
 		}
 		if !panicked {
-			if t, ok := got.(*dummy.T); !ok || t == nil || t.ID != m.get(off) {
+			if m.get(off) == 0 {
+				if got != nil {
+					return fmt.Sprintf("Get(%d)=%v, the model holds the nil item there", off, got)
+				}
+			} else if t, ok := got.(*dummy.T); !ok || t == nil || t.ID != m.get(off) {
 				return fmt.Sprintf("Get(%d)=%v, model item %d", off, got, m.get(off))
 			}
 		}
@@ -262,7 +279,11 @@ func (r *feedRun) compare() string {
 			return fmt.Sprintf("Get(%d) answered although nothing is there", off)
 		}
 	}
-	if m.contains(0) {
+	if m.contains(0) && m.get(0) == 0 {
+		if cur := r.real.Current(); cur != nil {
+			return fmt.Sprintf("Current()=%v, the model holds the nil item there", cur)
+		}
+	} else if m.contains(0) {
 		if t, ok := r.real.Current().(*dummy.T); !ok || t == nil || t.ID != m.get(0) {
 			return fmt.Sprintf("Current()=%v, model item %d", r.real.Current(), m.get(0))
 		}
@@ -328,6 +349,7 @@ func main() {
 		"history: every sequence over {add,back,forward} up to the depth bound, replayed on a fresh history.History[int]; "+
 			"a size phase of long runs (2..257 pages opened, 1..300 steps back, a page opened, and the same again from there: 845 sequences of up to 700 operations); "+
 			"feed: breadth-first search over reference-model states (lo,hi,cursor), every transition replayed from scratch on a fresh feed.Feed, "+
+			"every sequence of 4 operations over {append nil, prepend nil, append 1, prepend 1, up, down, centre} from 4 starts (one a list that contains the nil item), unmerged; "+
 			"observers Contains/IsParent/IsChild/Get at offsets -4..4 and Current compared after the step; "+
 			"two objects alive at once: every interleaving of operation sequences up to depth 3/4 on two feeds (all pairs of creations) and 5/7 on two histories, each object compared with its own model after every step. "+
 			"A case is non-trivial if it moves the cursor or changes the bounds; distinct = distinct model states.")
@@ -541,6 +563,35 @@ func main() {
 			r.Violation("feed:"+classify(msg), replay{"feed", pathString(p), msg})
 		}
 	})
+	// ---- feed: the nil item. A position that holds nil is a position: containment, lookup and
+	// moves treat it like any other (every sequence, unmerged, to depth 4)
+	nilInits := []fop{{"create", 0}, {"create-list", 1}, {"create-list-with-nil", 0}, {"create-list", 0}}
+	nilOps := []fop{{"append-nil", 0}, {"prepend-nil", 0}, {"append", 1}, {"prepend", 1}, {"up", 0}, {"down", 0}, {"center", 0}}
+	const nilDepth = 4
+	nnil := int64(len(nilInits))
+	for i := 0; i < nilDepth; i++ {
+		nnil *= int64(len(nilOps))
+	}
+	par.For(nnil, func(c int64) {
+		p := []fop{nilInits[c%int64(len(nilInits))]}
+		c /= int64(len(nilInits))
+		for i := 0; i < nilDepth; i++ {
+			p = append(p, nilOps[c%int64(len(nilOps))])
+			c /= int64(len(nilOps))
+		}
+		if msg, _ := runFeed(p, 0); msg != "" {
+			for k := 1; k <= len(p); k++ {
+				if m, _ := runFeed(p[:k], 0); m != "" {
+					p, msg = p[:k], m
+					break
+				}
+			}
+			r.Violation("feed:nil-item:"+classify(msg), replay{"feed", pathString(p), msg})
+		}
+	})
+	r.Eval(nnil)
+	r.Transitions += nnil * int64(nilDepth+1)
+	r.Extra["feed_nil_item_sequences"] = nnil
 	r.Eval(nseq)
 	r.Transitions += nseq * int64(fall+1)
 	r.Extra["feed_unmerged_sequences"] = nseq
